@@ -213,6 +213,12 @@ func (dm *DMap) lookupOnReplicas(hkey uint64, key string) []*version {
 		rc := dm.s.client.Get(host.String())
 		err := rc.Process(dm.s.ctx, cmd)
 		err = protocol.ConvertError(err)
+		if errors.Is(err, ErrKeyNotFound) {
+			// The replica owner answered: it has no copy of the key. It still counts
+			// for the read quorum, only unreachable members do not.
+			versions = append(versions, &version{host: &host})
+			continue
+		}
 		if err != nil {
 			if dm.s.log.V(6).Ok() {
 				dm.s.log.V(6).Printf("[DEBUG] Failed to call get on"+
